@@ -40,6 +40,8 @@ func c16Build(name string, seed uint64) *lib.Build {
 		b.PutSymlink("lnk", "a.bin")
 		b.PutDir("hollow")
 		b.PutFile("z-empty.bin", nil) // the LAST file of the container is empty: its only possible wound has an empty range
+	case "files1": // a single file: it is the first AND the last one the file worker gets
+		b.PutFile("only.bin", lib.RandomBytes(lib.BS-100, r.Uint64()))
 	case "files300":
 		for i := 0; i < 300; i++ {
 			b.PutFile(fmt.Sprintf("d%d/f%03d.bin", i%7, i), lib.RandomBytes(int64(1+r.Intn(400)), r.Uint64()))
@@ -138,6 +140,13 @@ func c16Cases(tier string, seed uint64, flavor string) []lib.Case {
 		}
 	}
 	cancelCases("files3", []string{"none", "first", "last", "all"}, 4, 1)
+	// the file worker fails on the only file of a build whose content is wrong as well: no clean verdict
+	for _, cons := range []string{"failfast", "wounds-good", "printer"} {
+		for k := 0; k < 6; k++ {
+			add(c16Spec{Build: "files1", Damage: "short-signature+all", Consumer: cons, Cancel: "none", Sched: []string{"none", "perturb"}[k%2], SchedSeed: lib.Mix(seed, uint64(i)), Procs: []int{1, 4, 16}[k%3]})
+			i++
+		}
+	}
 	// the file worker fails (the signature carries one hash less than the container needs): Validate must still return
 	for _, bdn := range []string{"files3", "files300"} {
 		for _, cons := range []string{"failfast", "wounds-good", "printer", "heal-good"} {
@@ -227,6 +236,11 @@ func c16Run(c lib.Case, env *lib.Env) lib.Result {
 	switch s.Damage {
 	case "short-signature":
 		sig = &pwr.SignatureInfo{Container: sig.Container, Hashes: sig.Hashes[:len(sig.Hashes)-1]}
+	case "short-signature+all":
+		sig = &pwr.SignatureInfo{Container: sig.Container, Hashes: sig.Hashes[:len(sig.Hashes)-1]}
+		for i := range files {
+			dmgFile(i)
+		}
 	case "first":
 		dmgFile(0)
 	case "last":
@@ -364,7 +378,7 @@ func c16Run(c lib.Case, env *lib.Env) lib.Result {
 	}
 	if s.Consumer == "failfast" {
 		res.Add("failfast_verdicts", 1)
-		if verr == nil && s.Damage == "short-signature" {
+		if verr == nil && strings.HasPrefix(s.Damage, "short-signature") {
 			res.Add("short_signature_validations_returning_nil", 1)
 		}
 		if verr == nil && deviates {
@@ -373,7 +387,7 @@ func c16Run(c lib.Case, env *lib.Env) lib.Result {
 		if verr == nil {
 			res.Add("failfast_nil_verdicts_checked_against_truth", 1)
 		}
-		if s.Cancel == "none" && !deviates && verr != nil && s.Damage != "short-signature" {
+		if s.Cancel == "none" && !deviates && verr != nil && !strings.HasPrefix(s.Damage, "short-signature") {
 			res.Violate("failfast-rejects-valid", desc, verr.Error())
 		}
 	}
